@@ -1,4 +1,8 @@
 -- root of the library: every model, generated fragment and property file
 import VirtioVerif.Model.Proto
 import VirtioVerif.Model.Layout
+import VirtioVerif.Model.EvQueue
+import VirtioVerif.Model.Console
 import VirtioVerif.Props.C06
+import VirtioVerif.Lemmas.EvQueue
+import VirtioVerif.Props.C15
